@@ -90,6 +90,21 @@ def outcome(rule_name, make):
             res.append(("rule" if not mode else "EXC", type(e).__name__ if not mode else "raised in collecting mode: " + repr(e)))
         except Exception as e:  # noqa
             res.append(("EXC", type(e).__name__ + ": " + str(e)[:200]))
+    # collecting into a list that already holds an (unrelated, earlier) error must append exactly what a fresh list gets
+    if len(res) == 2 and res[1][0] in ("ok", "errs"):
+        from metapype.eml.validation_errors import ValidationError as _VE
+        Node.store.clear()
+        n = make()
+        earlier = (_VE.UNKNOWN_NODE, "Unknown node rule type: zzEarlier", Node("zzEarlier"))
+        errs = [earlier]
+        try:
+            validate_under(rule_name, n, errs)
+            fresh = [(e[0], e[1]) for e in (res[1][1] or [])]
+            got = [(e[0], e[1]) for e in errs[1:]] if errs and errs[0] is earlier else None
+            res.append(("prefilled", None if got == fresh else
+                        f"appended {None if got is None else [c.name for c, _ in got]}, a fresh list gets {[c.name for c, _ in fresh]}"))
+        except Exception as e:  # noqa
+            res.append(("prefilled", "raised " + type(e).__name__ + ": " + str(e)[:150]))
     return res
 
 
